@@ -212,16 +212,10 @@ func c20BlockCount(snap *c19Snapshot, host string) int {
 	return n
 }
 
-// c20SigCapPerPoolSubset: autoAssign compares the block cap with the number of affine blocks
-// that lie inside the pools usable for the *current request* (ipam.go autoAssign:
-// numBlocksOwned := len(affBlocks), affBlocks already filtered by filterBlocksByPools), not with
-// the number of blocks the host holds.  A host served from several pools (explicit per-request
-// pool lists, per-namespace / per-use pools) can therefore hold cap x pools blocks.
-const c20SigCapPerPoolSubset = "c20-block-cap-counts-only-request-pools"
-
-// TestVerifC20ConfirmCapPerPoolSubset is the deterministic reproducer of c20SigCapPerPoolSubset.
-// It FAILS while the defect is present.
-func TestVerifC20ConfirmCapPerPoolSubset(t *testing.T) {
+// Finding c20-block-cap-counts-only-request-pools (fixed in the tree, 23b993f): autoAssign compared
+// the block cap with the number of the host's affine blocks inside the pools usable for the current
+// request only.  TestVerifC20RegressCapPerPoolSubset keeps the reproducer as a regression test.
+func TestVerifC20RegressCapPerPoolSubset(t *testing.T) {
 	ev.Quiet()
 	w := c19NewWorld([]v3.IPPool{c19Pool("a", "10.0.0.0/28", 30), c19Pool("b", "10.0.1.0/28", 30)}, nil)
 	w.addNode("n1", nil)
@@ -235,6 +229,59 @@ func TestVerifC20ConfirmCapPerPoolSubset(t *testing.T) {
 	snap := w.snapshot()
 	if n := c20BlockCount(snap, "n1"); n > 1 {
 		t.Errorf("StrictAffinity, MaxBlocksPerHost=1: after one AutoAssign from each of two pools host n1 holds %d affine blocks\n%s", n, snap)
+	}
+}
+
+// c20SigCapNonEmptyForeign: when counting the host's affine blocks for the cap,
+// prepareAffinityBlocksForHost subtracts every block of a pool that no longer selects the node for
+// which it *attempted* a release - also when the release was refused because the block is not
+// empty (errBlockNotEmpty falls through to numReleased++).  The host still holds that block.
+const c20SigCapNonEmptyForeign = "c20-block-cap-discounts-unreleased-nonempty-blocks"
+
+// c20HoldsForeignNonEmpty: host h has a non-empty affine block in a pool whose node selector does
+// not select it (the only situation the known finding covers).
+func c20HoldsForeignNonEmpty(cw *c20World, snap *c19Snapshot, h string) bool {
+	for _, a := range snap.Affs {
+		if a.Host != h {
+			continue
+		}
+		b := snap.Blocks[a.CIDR]
+		if b == nil || len(b.Allocs) == 0 {
+			continue
+		}
+		for _, p := range cw.pools {
+			if netip.MustParsePrefix(p.CIDR).Contains(netip.MustParsePrefix(a.CIDR).Addr()) && !c20SelMatches(p.NodeSel, cw.nodeLabels[h]) {
+				return true
+			}
+		}
+	}
+	return false
+}
+
+// TestVerifC20ConfirmCapNonEmptyForeign is the deterministic reproducer of c20SigCapNonEmptyForeign.
+// It FAILS while the defect is present.
+func TestVerifC20ConfirmCapNonEmptyForeign(t *testing.T) {
+	ev.Quiet()
+	b := c19Pool("b", "10.0.2.0/28", 29)
+	b.Spec.NodeSelector = "rack == 'a'"
+	w := c19NewWorld([]v3.IPPool{c19Pool("a", "10.0.0.0/28", 30), b}, nil)
+	w.addNode("n2", map[string]string{"rack": "b"})
+	w.setConfig(model.IPAMConfig{StrictAffinity: true, AutoAllocateBlocks: true, MaxBlocksPerHost: 2})
+	for i, rq := range []struct {
+		n     int
+		pools []string
+	}{{1, nil}, {1, []string{"10.0.2.0/28"}}, {4, nil}} {
+		h := fmt.Sprintf("h%d", i)
+		args := ipam.AutoAssignArgs{Num4: rq.n, HandleID: &h, Hostname: "n2", IntendedUse: v3.IPPoolAllowedUseWorkload}
+		for _, p := range rq.pools {
+			args.IPv4Pools = append(args.IPv4Pools, cnet.MustParseCIDR(p))
+		}
+		v4, _, err := w.ic.AutoAssign(context.Background(), args)
+		t.Logf("AutoAssign(n2, num=%d, pools=%v) -> %v err=%v", rq.n, rq.pools, v4, err)
+	}
+	snap := w.snapshot()
+	if n := c20BlockCount(snap, "n2"); n > 2 {
+		t.Errorf("StrictAffinity, MaxBlocksPerHost=2: host n2 holds %d affine blocks (one of them a non-empty block of a pool that does not select n2)\n%s", n, snap)
 	}
 }
 
@@ -346,7 +393,7 @@ func c20Case(t *rapid.T, rec *ev.Recorder) {
 		t.Fatalf("C20 VIOLATION: %s\npools: %+v\nreservations: %v\nnode labels: %v\nconfig: %+v\nhistory:\n  %s\ndatastore:\n%s",
 			fmt.Sprintf(format, args...), cw.pools, cw.rsvd, cw.nodeLabels, cw.cfg, strings.Join(log, "\n  "), cw.w.snapshot())
 	}
-	checkCap := func(when string, host string, perm []c20PoolSpec, before *c19Snapshot) {
+	checkCap := func(when string) {
 		if cw.cfg.MaxBlocksPerHost <= 0 {
 			return
 		}
@@ -356,25 +403,9 @@ func c20Case(t *rapid.T, rec *ev.Recorder) {
 			if n <= cw.cfg.MaxBlocksPerHost {
 				continue
 			}
-			if ev.Known(c20SigCapPerPoolSubset) {
-				// Known finding: the library counts only the blocks inside the pools usable for the
-				// current request.  Check the cap the way the library enforces it.
-				inPerm := 0
-				for _, a := range snap.Affs {
-					if a.Host != h {
-						continue
-					}
-					for _, p := range perm {
-						if netip.MustParsePrefix(p.CIDR).Contains(netip.MustParsePrefix(a.CIDR).Addr()) {
-							inPerm++
-						}
-					}
-				}
-				// ... and only when this request claimed a block (an excess created earlier persists).
-				if h != host || inPerm <= cw.cfg.MaxBlocksPerHost || n <= c20BlockCount(before, h) {
-					knownHit = true
-					continue
-				}
+			if ev.Known(c20SigCapNonEmptyForeign) && c20HoldsForeignNonEmpty(cw, snap, h) {
+				knownHit = true
+				continue
 			}
 			fail("%s: host %s holds %d affine IPv4 blocks, configured MaxBlocksPerHost is %d", when, h, n, cw.cfg.MaxBlocksPerHost)
 		}
@@ -517,7 +548,7 @@ func c20Case(t *rapid.T, rec *ev.Recorder) {
 			if len(got) < r.Num {
 				classes["partial-or-failed"] = true
 			}
-			checkCap(fmt.Sprintf("after #%d", i), r.Host, perm, before)
+			checkCap(fmt.Sprintf("after #%d", i))
 		case k == 7: // ReleaseIPs
 			var addrs []string
 			for a := range owned {
@@ -584,8 +615,9 @@ func c20Case(t *rapid.T, rec *ev.Recorder) {
 	}
 	key := strings.Join(ws, ";") + fmt.Sprint(cw.rsvd) + strings.Join(shape, "")
 	if knownHit {
-		rec.Excluded(c20SigCapPerPoolSubset)
+		rec.Excluded(c20SigCapNonEmptyForeign)
 	}
+
 	rec.SizedCase(nontrivial, key, len(log), func() any {
 		return map[string]any{"pools": cw.pools, "reservations": fmt.Sprint(cw.rsvd), "nodeLabels": cw.nodeLabels, "config": cw.cfg, "history": log}
 	}, cls...)
